@@ -467,6 +467,83 @@ def _host_arp_request() -> List[str]:
     return ["guard:target-is-not-arrival-interface-return", "reply=generate_reply(arrival-interface.mac)", "send_arp_reply(reply)"]
 
 
+# ------------------------------------------------------------------------------------------ rtrStd (round 4)
+def _router_arp_targets() -> List[str]:
+    """The argument of every `self.send_arp_request(..)` in the two RouterARP look-ups, in source order; the request for the looked-up
+    address itself must sit under `if self.router.ip_is_in_router_interface_subnet(ip_address):`."""
+    out = []
+    for name in ("_get_arp_cache_network_interface", "_get_arp_cache_mac_address"):
+        fn = _fn("network/hardware/nodes/network/router.py", "RouterARP", name)
+        calls = [n for n in ast.walk(fn) if isinstance(n, ast.Call) and _u(n.func) == "self.send_arp_request"]
+        calls.sort(key=lambda c: (c.lineno, c.col_offset))
+        for c in calls:
+            out.append(f"{name}:{_u(c.args[0])}")
+        own = [n for n in ast.walk(fn) if isinstance(n, ast.If) and _u(n.test) == "self.router.ip_is_in_router_interface_subnet(ip_address)"]
+        if len(own) != 1 or not any(isinstance(c, ast.Call) and _u(c.func) == "self.send_arp_request" and _u(c.args[0]) == "ip_address"
+                                    for c in ast.walk(own[0])):
+            raise RuntimeError(f"RouterARP.{name}: the request for the looked-up address is not under the interface-subnet test")
+        outside = [c for c in calls if _u(c.args[0]) == "ip_address" and c not in list(ast.walk(own[0]))]
+        if outside:
+            raise RuntimeError(f"RouterARP.{name}: a request for the looked-up address outside the interface-subnet test")
+    return out
+
+
+def _router_icmp_reply() -> str:
+    fn = _fn("network/hardware/nodes/network/router.py", "RouterICMP", "_process_icmp_echo_request")
+    sends = [n for n in ast.walk(fn) if isinstance(n, ast.Call) and _u(n.func).endswith("receive_payload_from_software_manager")]
+    if len(sends) != 1:
+        raise RuntimeError("RouterICMP._process_icmp_echo_request: expected one send")
+    kw = {k.arg: _u(k.value) for k in sends[0].keywords}
+    return kw.get("dst_ip_address", "?")
+
+
+def _terminal_exec_guards() -> List[str]:
+    fn = _fn("system/services/terminal/terminal.py", "Terminal", "receive")
+    execs = [n for n in ast.walk(fn) if isinstance(n, ast.Call) and _u(n.func) == "self.execute"]
+    out = [f"execute:{len(execs)}-call-site"]
+    parents = {}
+    for n in ast.walk(fn):
+        for ch in ast.iter_child_nodes(n):
+            parents[ch] = n
+    for c in execs:
+        node, tests = c, []
+        while node in parents:
+            par = parents[node]
+            if isinstance(par, ast.If) and node in par.body:
+                tests.append(_u(par.test))
+            node = par
+        if "valid_connection" not in tests:
+            raise RuntimeError("Terminal.receive: self.execute is not under `if valid_connection:`")
+        branch = [t for t in tests if "SSH_MSG_SERVICE_REQUEST" in t]
+        if not branch:
+            raise RuntimeError("Terminal.receive: self.execute is not in the SSH_MSG_SERVICE_REQUEST branch")
+        out.append("branch:" + branch[0])
+    assigns = [_u(n) for n in ast.walk(fn) if isinstance(n, ast.Assign) and _u(n.targets[0]) == "valid_connection"]
+    if len(assigns) != 1:
+        raise RuntimeError("Terminal.receive: valid_connection assigned more than once")
+    out.append("guard:" + assigns[0])
+    return out
+
+
+def _forward_writes() -> List[str]:
+    """`Router.process_frame` / `route_frame`: every statement that touches the frame, and what is sent."""
+    out = []
+    for name in ("process_frame", "route_frame"):
+        fn = _fn("network/hardware/nodes/network/router.py", "Router", name)
+        for n in ast.walk(fn):
+            if isinstance(n, (ast.Assign, ast.AugAssign)):
+                tg = n.targets if isinstance(n, ast.Assign) else [n.target]
+                if any(_u(t).startswith("frame") for t in tg):
+                    out.append(f"{name}:{_u(n)}")
+            if isinstance(n, ast.Expr) and isinstance(n.value, ast.Call):
+                f = _u(n.value.func)
+                if f.startswith("frame."):
+                    out.append(f"{name}:{_u(n.value)}")
+                if f.endswith(".send_frame"):
+                    out.append(f"{name}:send({', '.join(_u(a) for a in n.value.args)})")
+    return sorted(out)
+
+
 def _l(xs: List[str]) -> str:
     return "[" + ", ".join('"' + x.replace('"', "'") + '"' for x in xs) + "]"
 
@@ -510,6 +587,14 @@ def sessionArpBranch : List String := {_l(_session_arp_branch())}
 def hostArpRequest : List String := {_l(_host_arp_request())}
 /-- software a node of each kind carries as shipped (class names) -/
 def systemSoftware : List (String × List String) := [{", ".join(f'("{a}", {_l(b)})' for a, b in sysw)}]
+/-- the address each `send_arp_request(..)` of the two RouterARP look-ups asks for, in source order -/
+def routerArpTargets : List String := {_l(_router_arp_targets())}
+/-- `RouterICMP._process_icmp_echo_request` sends its reply to -/
+def routerIcmpReplyDst : String := "{_router_icmp_reply()}"
+/-- where `Terminal.receive` calls `self.execute` (the only path to `apply_request` in the software layer) -/
+def terminalExecGuards : List String := {_l(_terminal_exec_guards())}
+/-- every statement of `Router.process_frame` / `route_frame` that touches the frame, and what they send -/
+def forwardWrites : List String := {_l(_forward_writes())}
 /-- per shipped software class: can the code run by its `receive` reach (enable site, request dispatcher) without leaving
 the node?  (`self`/`super()` calls resolved in the class's ancestor chain, other calls by name; stops at send_frame /
 transmit_frame / receive_frame) -/
